@@ -148,6 +148,13 @@ Definition C11_obtuse (n : nat) (C : vec -> Prop) (P : vec -> vec) : Prop :=
 Definition C11_obtuse_ip (ip : vec -> vec -> F) (C : vec -> Prop) (P : vec -> vec) : Prop :=
   forall u, C (P u) /\ forall z, C z -> kle F (ip (vsub u (P u)) (vsub z (P u))) 0.
 Definition C11_ipM (n : nat) (M : @mat F) (x y : vec) : F := dot n x (mv n M y).
+(* QOperation.convert_var_to_stacked_vector as an affine map  v |-> L v + c  (L : N x n) and the metric it induces on variables *)
+Definition C11_emb (n : nat) (L : @mat F) (c : vec) (v : vec) : vec := fun i => mv n L v i + c i.
+Definition C11_metric_of (N : nat) (L : @mat F) : @mat F := mmul N (mT L) L.
+(* <M g, y> + mu <y, M y>: the certificate that survives when the projection belongs to the inner product <x, M y> but the
+   step is taken along the Euclidean gradient (the code as written; Proofs/C11_Metric.v).  For M = I it is C11_descent_defect. *)
+Definition C11_descent_defect_metric (n : nat) (M : @mat F) (mu : F) (gx y : vec) : F :=
+  dot n (mv n M gx) y + mu * C11_ipM n M y y.
 (* first-order convexity inequality:  f z >= f x + <g x, z - x> *)
 Definition C11_first_order_convex (n : nat) (f : vec -> F) (g : vec -> vec) : Prop :=
   forall x z, kle F (f x + dot n (g x) (vsub z x)) (f z).
